@@ -1,7 +1,10 @@
 use std::cell::RefCell;
 use std::collections::BTreeMap;
 use std::rc::Rc;
+#[cfg(not(folo_verif_loom))]
 use std::sync::{Arc, Mutex};
+#[cfg(folo_verif_loom)]
+use loom::sync::{Arc, Mutex};
 
 use crate::{LayoutKey, RawOpaquePool, RawOpaquePoolThreadSafe};
 
